@@ -48,7 +48,7 @@ def run_mc(prop, tier, monitors, assumptions, rule, binary=None, extra_env=None,
     t0 = t0 or time.time()
     binary = binary or build_mc()
     mons = ','.join(monitors)
-    budget = float(os.environ.get('VERIF_BUDGET_S', '150' if tier == 'quick' else '3000'))
+    budget = float(os.environ.get('VERIF_BUDGET_S', '240' if tier == 'quick' else '3000'))
     deadline = int(t0 + budget)
     base_env = {'VERIF_MONS': mons, 'VERIF_DEADLINE': str(deadline)}
     base_env.update(extra_env or {})
